@@ -1,9 +1,10 @@
-\* all orderings of all non-empty subsets of three names, one or two objects, every reader class, every extension order
-CONSTANTS Names = {"A", "B", "C"}  MaxObj = 2  Wide = FALSE  MaxRow = 0
+\* all orderings of all non-empty subsets of three names, one object, every reader class, every extension order
+CONSTANTS Names = {"A", "B", "C"}  MaxObj = 1  Wide = FALSE  MaxRow = 0
 INIT FInit
 NEXT FNext
 CONSTRAINT Bound
 INVARIANT FTypeOK
+INVARIANT FRefusalStoresNothing
 INVARIANT FlagMeaning
 INVARIANT ReadExtendsOnly
 INVARIANT BytesExact
